@@ -16,7 +16,9 @@ CLAIMS = {
              "set whose patterns have >= 2 tokens: a completed find_match covers >= pattern-length live tokens (findMatch_count), replacing them by "
              "one lowers the measure (replaceRange_mu), a firing pass strictly decreases it and a non-firing pass is the identity (rulePass_mu, "
              "unitPass_mu), so beyond `live tokens` passes more fuel changes nothing (ruleLoop_stable, unitLoop_stable, model_fuel_suffices); the "
-             "hypothesis is re-decided for the regenerated tables (gen_rules_ok, gen_units_ok). Panic freedom and termination of the Rust code are NOT theorems: they are decided by hostile "
+             "hypothesis is re-decided for the regenerated tables (gen_rules_ok, gen_units_ok); the parser terminates on EVERY token list: its fuel is never "
+             "exhausted and every successful parse consumes a token (parseExpr_total, parseExpr_consumes; simultaneous induction over the five mutually "
+             "recursive parser functions with explicit fuel requirements). Panic freedom and termination of the Rust code are NOT theorems: they are decided by hostile "
              "generators (byte-level, corrupted well-formed lines, curated panic shapes, all language tags, all setters) under "
              "catch_unwind with panic-site attribution and a 5 s watchdog. 14 panic sites found this way were repaired in /repo (fix: commits).",
         note="Trusted: Lean kernel; axioms propext/Classical.choice/Quot.sound only; harness; generators bound line length (<=400) and line count (<=40).",
